@@ -21,13 +21,14 @@ LEVEL = "exploration"
 RULE = ("case = batch of 12 (quick) / 40 (thorough) documents: one third real image groups (random field values pushed to "
         "extremes, levels 1.1/1.5), two thirds generated hierarchies (depth<=3; dtype kinds b,i8..i64,u8..u64,f16/32/64 with "
         "NaN/inf/-0.0, M and m in units D..ns incl. far dates, U incl. non-ASCII; ranks 0-2 with sizes 0..4; attrs nested "
-        "lists/tuples/None/bool/huge ints/non-ASCII). evaluations = documents round-tripped (each decoded twice: same and "
+        "lists/tuples/None/bool/huge ints/non-ASCII, a quarter of the attribute names coinciding with keys of the document's own structure "
+        "such as data/dims/attrs/dtype/shape). Every document is decoded once more after the first decoded hierarchy was edited in place. evaluations = documents round-tripped (each decoded twice: same and "
         "fresh process); distinct = distinct (source, dtype kind/unit, rank, zero-size) variable classes seen")
 ASSUMPTIONS = ["attributes are JSON-able plain Python (what the reader produces); no attribute dict carries a '__type__' key",
                "NaN is compared as canonical NaN (payload bits are not part of the statement)",
                "datetime arrays whose *first* element is NaT are generated as their own counted class",
                "values of one datetime array span less than 2^63 units (the offset encoding cannot represent more; observed: OverflowError for spans of about 292 years at ns resolution)"]
-REQUIRED_OBS = ["documents", "fresh_process_decodes", "variables"]
+REQUIRED_OBS = ["documents", "fresh_process_decodes", "variables", "redecoded_after_edit"]
 CASE_TIMEOUT = 600
 N = {"quick": 96, "thorough": 3000}
 BATCH = {"quick": 12, "thorough": 40}
@@ -48,6 +49,40 @@ def rand_attr(rng, depth=0):
     c = rng.randrange(0, 9)
     return [None, True, False, rng.randrange(-10, 10), 2 ** 70 + rng.randrange(0, 9), -(2 ** 63), rng.random() * 1e300,
             float("nan") if rng.random() < 0.3 else float("-inf"), rng.choice(["µs", "Hz/µs^2", "σ⁰", "日本", "", "a b", 'q"uote'])][c]
+
+
+# attribute names that coincide with keys of the index document's own structure (attributes share the document tree)
+STRUCTURAL_NAMES = ["data", "dims", "attrs", "encoding", "dtype", "path", "url", "shape", "root", "byte_ranges", "type_code",
+                    "units", "reference", "type", "variables", "groups", "coordinates_"]
+
+
+def _attr_name(rng, default):
+    return rng.choice(STRUCTURAL_NAMES) if rng.random() < 0.25 else default
+
+
+def _scribble(group, rng):
+    """edit a decoded hierarchy in place (what a user may do with a tree): attrs, nested lists, dims, byte ranges"""
+    from ceos_alos2.hierarchy import Group
+
+    def attrs_of(a):
+        for k in list(a):
+            v = a[k]
+            if isinstance(v, list):
+                v.append("scribble")
+            a[k] = "scribble" if not isinstance(v, list) else v
+        a["scribbled"] = True
+
+    attrs_of(group.attrs)
+    for name, item in list(group.data.items()):
+        if isinstance(item, Group):
+            _scribble(item, rng)
+        else:
+            attrs_of(item.attrs)
+            d = item.data
+            if isinstance(getattr(d, "byte_ranges", None), list) and d.byte_ranges:
+                d.byte_ranges.pop()
+            elif isinstance(d, np.ndarray) and d.size and d.flags.writeable and d.dtype.kind in "iuf":
+                d.reshape(-1)[0] = 0
 
 
 def rand_array(rng, shape, cls):
@@ -106,7 +141,7 @@ def rand_hierarchy(rng, classes, depth=0, path="/"):
             arr = flat.reshape(shape)
             nat_first = bool(np.isnat(arr.reshape(-1)[0]))
         as_list = arr.size > 0 and rank >= 1 and rng.random() < 0.2 and cls in ("b", "i64", "f64", "U")
-        attrs = {f"a{j}": rand_attr(rng) for j in range(rng.randrange(0, 3))}
+        attrs = {_attr_name(rng, f"a{j}"): rand_attr(rng) for j in range(rng.randrange(0, 3))}
         if rng.random() < 0.3:
             attrs["units"] = rng.choice(["Hz/µs", "deg", "m^3 / s^2"])
         name = f"v{k}_{cls}"
@@ -116,7 +151,7 @@ def rand_hierarchy(rng, classes, depth=0, path="/"):
     if depth < 2:
         for k in range(rng.randrange(0, 3)):
             data[f"g{k}"] = rand_hierarchy(rng, classes, depth + 1, path.rstrip("/") + f"/g{k}")
-    attrs = {f"ga{j}": rand_attr(rng) for j in range(rng.randrange(0, 4))}
+    attrs = {_attr_name(rng, f"ga{j}"): rand_attr(rng) for j in range(rng.randrange(0, 4))}
     return Group(path=path, url=rng.choice([None, "memory:///somewhere"]), data=data, attrs=attrs)
 
 
@@ -252,6 +287,18 @@ def run_case(i, tier, seed):
         d = canon.diff(want, got)
         if d:
             violations.append({"what": f"decode(encode(g)) differs from g at {len(d)} leaves, first: {d[0]}", "detail": dict(desc, diff=d[:5])})
+        elif not drop:
+            # the same document decoded once more after the first result was edited in place: still the encoded hierarchy
+            try:
+                _scribble(dec, rng)
+                got2 = group_canon(caching.decode(text, records_per_chunk=rpc))
+                obs["redecoded_after_edit"] = obs.get("redecoded_after_edit", 0) + 1
+                d2 = canon.diff(want, got2)
+                if d2:
+                    violations.append({"what": f"second decode of the same document (after the first result was edited in place) differs from the original at {len(d2)} leaves, first: {d2[0]}",
+                                       "detail": dict(desc, diff=d2[:5])})
+            except Exception as e:
+                violations.append({"what": f"second decode of the same document raised: {harness.exc_sig(e)}", "detail": desc})
         violations.extend(real_known)
         obs["dropped_known"] += len(drop)
         if drop:
